@@ -10,6 +10,10 @@ T = {
  "C11d": ("C11", "ILLlib_readbasis tests the column index instead of the row index after the row-name lookup (XL/XU lines)", "basis file with an XL/XU line naming a known column and an unknown row: write to rstat[-1]"),
  "C15d": ("C15", "matrix_addrow_end re-packs the column store without reserving a slot for still-empty columns", "row-wise build (QSnew_col, then QSadd_row) beyond 1000 non-zeros with a column that is empty at re-pack time and receives its first coefficient later; row order decides"),
  "C17d": ("C17", "ILLlib_addcol no longer clears intmarker[nstruct] of the new column (the array is grown with realloc)", "problem read from a file that declares an integer column, then QSnew_col/QSadd_col(s), then QSget_intflags or QSwrite_prob: result depends on heap contents; no out-of-bounds access"),
+ "C05d": ("C05", "QSchange_objcoef gets an 'unchanged coefficient, keep the stored solution' shortcut that compares with obj[indx] (structural index used as internal column index)", "column added after rows (structmap not the identity), OPTIMAL solve, QSchange_objcoef of that column to the value internal column indx holds (e.g. 0, a logical's cost): accessors and the direct simplex serve the stale optimum"),
+ "C12d": ("C12", "ILLfct_check_dfeasible flags a positive reduced cost only for at-upper non-basic columns, no longer for FREE ones", "supplied non-singular basis with a free structural column non-basic (status FREE) and exact reduced cost > 0: verdict functions answer optimal / dual feasible"),
+ "C16d": ("C16", "QScopy_prob_mpq_mpf takes the numeric parameters (time limit, objective limits) through a double", "finite objective limit that is not a double (1000/3), QScopy_prob_mpq_mpf, mpf_QSget_param_EGlpNum on the copy: only 53 bits agree"),
+ "C20d": ("C20", "monitor_iter reports 'bound reached' with fprintf(stderr) instead of QSlog", "finite QS_PARAM_OBJULIM on a MIN problem (OBJLLIM on MAX) below the optimum, dual simplex: the dual objective crosses the limit (status OBJ_LIMIT)"),
  "C19d": ("C19", "bzip2 branch of EGioGets returns NULL at end of stream even when bytes of an unterminated last line were read", ".bz2 problem or basis file whose last line lacks the trailing newline"),
 }
 res = json.load(open(os.path.join(ROOT, "results.json")))
